@@ -26,4 +26,16 @@ CHECKS = {
         note="Trusted: TLC, the projection code in harness/props/c15.py. Bounds: histories over <=3 nodes, <=2-3 links, <=1 deletion; graphs <=6 nodes exhaustive, <=14 nodes random. biccs queried per component via graph_from_comp.",
         technique="TLC model checking of GfaStore.tla; transition-tour replay into gaftools.gfa.GFA; TLC validation of recorded histories against declarative graph definitions",
     ),
+    "C01": dict(
+        text="Coords.tla defines what a GAF path designates (Denote: read-oriented sequence of <node, offset, strand> positions) for unstable, stable-interval and bare-contig paths, and generates every (rGFA, walk) within the bound; gaftools view converts ALL offset pairs of every generated walk u->s->u2 (plus seeded random larger graphs); TLC (Check_Coords) decides same locus, CIGAR orientation and path length for each conversion in both directions.",
+        ref="5 C01, App. A.1",
+        note="Trusted: TLC, GAF/GFA splitters in harness/readers.py. Bounds: <=3 ref segments of length <=2, <=2 haplotype segments (touching/separated), walks <=2 (quick) / <=3 (thorough) plus random walks <=6 over <=10 nodes; '+'-strand inputs.",
+        technique="TLC bounded enumeration of Coords generator states replayed through gaftools view; TLC validation against the positional Denote oracle",
+    ),
+    "C02": dict(
+        text="Same enumeration as C01; multi-record files are converted u->s->u2->s2 and TLC decides that untouched columns/optional fields are identical, that records stay in order one-for-one, and that canonical records round-trip exactly in both directions.",
+        ref="5 C02",
+        note="As C01; 'canonical stable form' = gaftools' own output for a canonical unstable record; optional fields from the parser-safe alphabet (C16 covers the rest).",
+        technique="TLC bounded enumeration + TLC validation of exact round trips through gaftools view",
+    ),
 }
